@@ -367,7 +367,6 @@ func Main(id, tier string) {
 	c.Finish()
 }
 
-
 // runWorkers shards the scenarios of a check over worker processes and merges their statistics.
 func runWorkers(id, tier string, n int, promoted []string) (*explore.Stats, int) {
 	total := explore.NewStats()
